@@ -144,7 +144,8 @@ PROPS = {
               dict(harness='k_number_units_partial_total', klass='complete', schema=['u8', 'u8', 'f64', 'f64'], family='number-units', target='Number partial_cmp/cmp with units'),
               dict(harness='k_coord_laws', klass='complete', schema=['f64'] * 6, family='coord-laws', target='Coord eq/cmp/partial_cmp'),
               dict(harness='k_coord_eq_hash', klass='complete', schema=['f64'] * 4, family='coord-hash', target='Coord eq/hash')],
-        witness='enum:eq-laws',
+        witness=['enum:eq-laws', 'enum:random-eq-laws'],
+        enums_thorough=['enum:random-eq-laws 600'],
         design_ref='DESIGN.md section 4, C12',
         level_text=('Proof (Kani/CBMC, bit-precise, complete over all non-NaN f64): for the hand-written Eq/Hash/Ord/PartialOrd of Number '
                     '(unit-less, and with units drawn from {none, m, s}) and Coord: == is an equivalence and a clone equals its original; '
